@@ -854,7 +854,7 @@ func runC12(c *Ctx) {
 	}
 	// execute in chunks: real code first, then one batch to the driver
 	const chunk = 500
-	semBudget, semT0 := 25*time.Second, time.Now()
+	semBudget, semT0 := 15*time.Second, time.Now()
 	if c.Thorough {
 		semBudget = 180 * time.Second
 	}
